@@ -261,7 +261,7 @@ type replayCase struct {
 func main() {
 	vk.Run("C21", "exploration", func(t *vk.T) {
 		api.DisableConfigDir()
-		t.Rule("case = (opcat operation writing PDFs, input = fixture | corpus PDF <= 1 MB | pdfgen document — all accepted by api.ValidateFile relaxed —, seeded valid parameters, new output | in place); for a call that succeeds every PDF output must pass api.ValidateFile in relaxed mode; non-trivial = distinct (operation, input) pairs with at least one validated output")
+		t.Rule("case = (opcat operation writing PDFs, input = fixture | corpus PDF <= 1 MB | pdfgen document | feature document (the structure the operation family rewrites exists already: catalog XMP stored unfiltered / Flate / ASCIIHex+Flate / LZW with and without pdf:Keywords, dc:subject and Info Keywords for keyword, property, optimize, write and encrypt operations; outlines for bookmark and page operations; name trees with kids for attachment operations; direct and indirect /OCProperties with own groups for stamp operations; viewer preferences; flat and tree page labels; AcroForm) — all accepted by api.ValidateFile relaxed —, seeded valid parameters, new output | in place); for a call that succeeds every PDF output must pass api.ValidateFile in relaxed mode; non-trivial = distinct (operation, input) pairs with at least one validated output")
 		t.Assume("strict-mode validation of the outputs is only counted, never a verdict (the property names relaxed mode): strict_invalid = outputs failing strict mode, strict_regression/<op> = those whose inputs all pass strict mode")
 		t.Assume("outputs that fail because pdfcpu re-encoded a page content stream that declares a /Predictor (Flate encoder ignores predictors: known finding of C15) are reported under the single key class=output-invalid/cause=predictor-content-stream-rewritten; the cause is established on the output bytes with pdfstrict, not from the error text")
 		t.Assume("outputs failing with \"page N: missing required resource subdict\" where page N uses a content stream object shared with other pages whose data pdfcpu rewrote (stamp / CreateFile on a proper subset of the pages sharing it) are reported under the single key class=output-invalid/cause=shared-content-stream-rewritten")
@@ -269,9 +269,23 @@ func main() {
 		t.Assume("derived inputs (fixture shapes enc/wm/boxes made from a pool document with pdfcpu) are validated before use; a derived input that does not validate is charged to the deriving operation (EncryptFile, AddWatermarksFile/text, AddBoxesFile) as an invalid output, except for the predictor signature, which is only counted (derived_input_invalid_predictor_signature); the case itself is void")
 
 		ops := opwl.PDFOps()
-		pool := opwl.BuildPool(t, opwl.PoolOptions{Corpus: t.Pick(160, 2000), Gen: t.Pick(60, 500), Strict: true})
+		pool := opwl.BuildPool(t, opwl.PoolOptions{Corpus: t.Pick(160, 2000), Gen: t.Pick(60, 500), Strict: true, Features: true})
 		n := t.Pick(600, 15000)
 		plans := pool.Plans(t, ops, n)
+		// feature cases: every operation of a family on inputs in which the structure it rewrites already exists
+		// in a representation pdfcpu does not write itself (internal/opwl/features.go)
+		family := map[int]string{}
+		for _, fp := range pool.FeaturePlans(t, ops, t.Pick(1, 4), n) {
+			family[fp.Index] = fp.Family + "/" + fp.Tag
+			plans = append(plans, fp.Plan)
+			t.Count("feature_cases/"+fp.Family+"/"+fp.Tag, 1)
+		}
+		n = len(plans)
+		for k, c := range pool.FeatureCounts() {
+			// general/<tag>: inputs of the randomly substituted pool carrying the feature; feature/<tag>: feature documents
+			t.Count("pool_feature/"+k, int64(c))
+		}
+		t.Count("pool_feature_documents_rejected_by_validate", int64(pool.FeatureRejected))
 		t.Extra("operations", len(ops))
 		t.Extra("pool", pool.TagCounts())
 		t.Count("pool_inputs", int64(len(pool.Inputs)))
@@ -442,6 +456,9 @@ func main() {
 			}
 			succeeded[name]++
 			t.Count("cases_succeeded", 1)
+			if f := family[i]; f != "" {
+				t.Count("feature_cases_succeeded/"+f, 1)
+			}
 			t.Count("cases_succeeded/input="+pl.InputKind(pool), 1)
 			t.Count("outputs_unvalidated_over_cap", int64(co.unchecked))
 			if len(co.outs) == 0 {
